@@ -67,7 +67,7 @@ def wasserstein_contract(want_matching):
     def ensures(a, res):
         e, g = a.eng, a.g
         if "lsa" not in g:
-            return [("assignment_solver_called", False, "P")]
+            return [("assignment_solver_called", False, "S")]
         val = res[0] if want_matching else res
         out = [("value_is_cost_of_optimal_assignment_on_D", lift(val) == g["lsa"]["minsum"], "P")]
         if want_matching:
